@@ -497,6 +497,9 @@ type cmd struct {
 	Srv  string `json:"srv"`
 	Svcs []string `json:"svcs"`
 	Hook string `json:"hook"`
+	// Hooks, when set, gives every service of Svcs its own hook kind (same order); registrations are made in
+	// the order of Svcs, in one process, on one mux
+	Hooks []string `json:"hooks"`
 	Mock bool   `json:"mock"`
 	// script
 	RPC    string  `json:"rpc"`
@@ -535,7 +538,11 @@ type probe struct {
 func doServe(c *cmd) {
 	mux := http.NewServeMux()
 	s := &server{id: c.ID, mux: mux, scripts: map[string]*script{}, hook: c.Hook}
-	for _, svc := range c.Svcs {
+	for si, svc := range c.Svcs {
+		hk := c.Hook
+		if si < len(c.Hooks) {
+			hk = c.Hooks[si]
+		}
 		reg, ok := servers[svc]
 		if !ok {
 			emit(map[string]any{"ev": "error", "id": c.ID, "err": "unknown service " + svc})
@@ -545,7 +552,7 @@ func doServe(c *cmd) {
 			emit(map[string]any{"ev": "error", "id": c.ID, "err": "no mock for " + svc})
 			return
 		}
-		if err := reg(mux, hookFor(c.Hook), c.Mock); err != nil {
+		if err := reg(mux, hookFor(hk), c.Mock); err != nil {
 			emit(map[string]any{"ev": "error", "id": c.ID, "err": "register: " + err.Error()})
 			return
 		}
